@@ -106,6 +106,12 @@ func GenStyleDoc(r *Rand) (string, []sRecord) {
 				val = st + d + strings.Repeat("?", 1+rec.extraQ)
 			}
 			sb.WriteString(rec.indent + val + Pick(r, []string{"", " foo", " #x"}) + rec.eol)
+			if r.P(1, 3) { // multi-line entry summary: indented twice
+				sb.WriteString(rec.indent + rec.indent + Pick(r, []string{"more text", "second line #y", " extra indented"}) + rec.eol)
+				if r.P(1, 3) {
+					sb.WriteString(rec.indent + rec.indent + "third line" + rec.eol)
+				}
+			}
 		}
 		recs = append(recs, rec)
 		if i < n-1 {
